@@ -101,6 +101,9 @@ pub trait Tri {
     fn shape(&self, what: &str, a: u64, b: u64, c: u64, d: u64) -> String;
     fn bary(&self, x: u64, y: u64) -> String;
     fn nnw(&self, x: u64, y: u64) -> String;
+    /// `interpolate` of a fixed linear function next to the weighted sum over `get_weights`
+    fn baryi(&self, x: u64, y: u64) -> String;
+    fn nnwi(&self, x: u64, y: u64) -> String;
     fn vor(&self) -> String;
     fn side(&self, e: usize, x: u64, y: u64) -> String;
     // CDT only (DT: "unsupported")
@@ -125,6 +128,13 @@ fn errname(e: InsertionError) -> &'static str {
         InsertionError::TooLarge => "TooLarge",
         InsertionError::NAN => "NAN",
     }
+}
+
+/// the linear test function of the `baryi` / `nnwi` operations
+fn lin<S: Sc>(p: Point2<S>) -> S {
+    let half = <S as num_traits::NumCast>::from(0.5f32).unwrap();
+    let quarter = <S as num_traits::NumCast>::from(0.25f32).unwrap();
+    p.x * half + p.y * quarter + S::one()
 }
 
 fn p2<S: Sc>(x: u64, y: u64) -> Point2<S> {
@@ -369,6 +379,26 @@ macro_rules! common_methods {
             }
             s
         }
+        fn baryi(&self, x: u64, y: u64) -> String {
+            let bc = self.t.barycentric();
+            if self.t.num_vertices() > 0 {
+                // warm-up on a vertex: stale state must not leak into the next call
+                let p0 = self.t.vertex(vh(0)).position();
+                let _ = bc.interpolate(|v| lin(v.position()), p0);
+            }
+            let p = p2::<S>(x, y);
+            let r = bc.interpolate(|v| lin(v.position()), p);
+            let mut w = Vec::new();
+            bc.get_weights(p, &mut w);
+            let mut sum = S::zero();
+            for (v, c) in &w {
+                sum = sum + lin(self.t.vertex(*v).position()) * *c;
+            }
+            match r {
+                Some(v) => format!("iv {} {} {}", tok(v), tok(sum), w.len()),
+                None => format!("iv none {} {}", tok(sum), w.len()),
+            }
+        }
         fn side(&self, e: usize, x: u64, y: u64) -> String {
             let e = self.t.directed_edge(self.t.fixed_directed_edges().nth(e).expect("edge index out of range"));
             let q = e.side_query(p2::<S>(x, y));
@@ -466,6 +496,25 @@ where
             None => "none".to_string(),
         }
     }
+    fn nnwi(&self, x: u64, y: u64) -> String {
+        let nn = self.t.natural_neighbor();
+        if self.t.num_vertices() > 0 {
+            let p0 = self.t.vertex(vh(0)).position();
+            let _ = nn.interpolate(|v| lin(v.position()), p0);
+        }
+        let p = p2::<S>(x, y);
+        let r = nn.interpolate(|v| lin(v.position()), p);
+        let mut w = Vec::new();
+        nn.get_weights(p, &mut w);
+        let mut sum = S::zero();
+        for (v, c) in &w {
+            sum = sum + lin(self.t.vertex(*v).position()) * *c;
+        }
+        match r {
+            Some(v) => format!("iv {} {} {}", tok(v), tok(sum), w.len()),
+            None => format!("iv none {} {}", tok(sum), w.len()),
+        }
+    }
     fn nnw(&self, x: u64, y: u64) -> String {
         // the same NaturalNeighbor object and result vector are used for a warm-up query (on a
         // vertex, so that it yields a weight) and then for the real one: stale state must not leak
@@ -553,6 +602,9 @@ where
         }
     }
     fn nn(&self, _x: u64, _y: u64) -> String {
+        "unsupported".to_string()
+    }
+    fn nnwi(&self, _x: u64, _y: u64) -> String {
         "unsupported".to_string()
     }
     fn nnw(&self, _x: u64, _y: u64) -> String {
